@@ -802,7 +802,9 @@ class Engine(object):
       self.recompute_map[node] = dirty_rows
 
     exempt = self._prevent_recompute_map.get(node, None)
-    if exempt:
+    if exempt and not col.is_formula():
+      # (Exemptions protect explicitly-set values of data columns with trigger formulas. If the
+      # column has meanwhile become a formula column, every row needs its value calculated.)
       # If allow_evaluation=False we're not supposed to actually compute dirty_rows.
       # But we may need to compute them later,
       # so ensure self.recompute_map[node] isn't mutated by separating it from dirty_rows.
